@@ -59,6 +59,19 @@ func (p c08) Run(c *core.Ctx) {
 	for x := 0; x < 1+c.Rng.Intn(3); x++ {
 		AddRandomPoints(g, c.Rng.Intn(n), 1, 5, mix, nil)
 	}
+	if c.Rng.Intn(2) == 0 {
+		// configuration-bound fields next to the wiring points of the same holders (every field is narrowed on its
+		// own, whatever other kinds of tagged fields the holder has and in whatever order they are listed)
+		for i := range g.Sc.Nodes {
+			if len(g.Sc.Nodes[i].Tags) > 0 && c.Rng.Intn(3) > 0 {
+				g.Sc.Nodes[i].Cfg = map[string]world.TagSpec{"CfgS": {Tag: "value", Val: "${c08.s:dflt}"}}
+				if c.Rng.Intn(2) == 0 {
+					g.Sc.Nodes[i].Cfg["CfgI"] = world.TagSpec{Tag: "prop", Val: "c08.i:7"}
+				}
+				c.Count("holders_with_configuration_fields_next_to_their_points", 1)
+			}
+		}
+	}
 	var holders []any
 	for h := 0; h < c.Rng.Intn(3); h++ {
 		hm := mix
